@@ -51,8 +51,9 @@ def insertSorted (tb : TieBreak) (e : Slot) : List Slot → List Slot
     kernel-reducible) denotes the same function as Rust's merge sort. -/
 def stableSort (tb : TieBreak) (l : List Slot) : List Slot := l.foldr (insertSorted tb) []
 
-/-- the sort key of the current tree -/
-def currentTieBreak : TieBreak := .joinOrder
+/-- the sort key of the current tree: (position, node id, virtual index) since the fix of
+    C19:order:position-collision:join-order-decides -/
+def currentTieBreak : TieBreak := .total
 
 /-- `HashRing` (without `version`); `tb` is not a field of the Rust struct: it records which sort
     key `add_node` uses, so that the code as it is and the suggested patch are both expressible -/
